@@ -39,38 +39,28 @@ Theorem C08_name_perm : forall ver fs fs',
   Permutation (contents fs) (contents fs') -> exe_name H tpl ver fs = exe_name H tpl ver fs'.
 Proof. exact (name_perm H magicRebuildKey tpl). Qed.
 
-(* and it differs whenever the contents, the template or the toolchain version differ.
-   Full statement wanted:  exe_name tpl ver fs = exe_name tpl' ver' fs' ->
-        Permutation (contents fs) (contents fs') /\ tpl = tpl' /\ ver = ver'.
-   That is FALSE of ExeName (see C08_name_tpl_confusable): the template hash is sorted into the
-   same list as the file hashes.  What holds: the multiset {template} + contents and the version
-   are determined by the name ... *)
-Theorem C08_name_inj_partial :
+(* and it differs whenever the contents, the template or the toolchain version differ: the name
+   determines the multiset of contents, the template and the version (unique parsing: the sorted
+   40-character file digests, then the template digest, then the key, which starts with the
+   non-hex character 'v', then the version) *)
+Theorem C08_name_inj :
   (forall x, digest_ok (H x)) -> collision_free H D ->
   forall tpl ver fs tpl' ver' fs',
   Forall D (hashed H tpl ver fs) -> Forall D (hashed H tpl' ver' fs') ->
   exe_name H tpl ver fs = exe_name H tpl' ver' fs' ->
-  Permutation (tpl :: contents fs) (tpl' :: contents fs') /\ ver = ver'.
+  Permutation (contents fs) (contents fs') /\ tpl = tpl' /\ ver = ver'.
 Proof. exact (name_inj H D). Qed.
 
-(* ... hence for one mage binary (one template) the name determines contents and version *)
-Theorem C08_name_inj :
-  (forall x, digest_ok (H x)) -> collision_free H D ->
-  forall ver fs ver' fs',
-  Forall D (hashed H tpl ver fs) -> Forall D (hashed H tpl ver' fs') ->
-  exe_name H tpl ver fs = exe_name H tpl ver' fs' ->
-  Permutation (contents fs) (contents fs') /\ ver = ver'.
-Proof. exact (fun Hs Hi => name_inj_same_tpl H D Hs Hi tpl). Qed.
+(* the tree before commit db4aa20 ([exe_name_old]: the template hash sorted into the same list as
+   the file hashes) did not tell template and contents apart: a magefile whose bytes are another
+   mage's template, under that mage's template being this file's bytes, got the same name *)
+Theorem C08_name_tpl_confusable_before_repair_refuted : forall ver f a b,
+  exe_name_old H a ver [(f, b)] = exe_name_old H b ver [(f, a)].
+Proof. exact (name_tpl_swap_old H). Qed.
 
-(* a magefile whose bytes are another mage's template, under that mage's template being this
-   file's bytes, gets the same name: template and contents are not told apart *)
-Theorem C08_name_tpl_confusable : forall ver f a b,
-  exe_name H a ver [(f, b)] = exe_name H b ver [(f, a)].
-Proof. exact (name_tpl_swap H magicRebuildKey). Qed.
-
-Theorem C08_name_inj_full_refuted : exists tpl tpl' ver fs fs',
-  exe_name H tpl ver fs = exe_name H tpl' ver fs' /\ tpl <> tpl' /\ ~ Permutation (contents fs) (contents fs').
-Proof. exact (name_inj_full_refuted H). Qed.
+Theorem C08_name_inj_before_repair_refuted : exists tpl tpl' ver fs fs',
+  exe_name_old H tpl ver fs = exe_name_old H tpl' ver fs' /\ tpl <> tpl' /\ ~ Permutation (contents fs) (contents fs').
+Proof. exact (name_inj_old_refuted H). Qed.
 
 (* ---- histories ---- *)
 
@@ -157,10 +147,9 @@ Theorem C08_relative_cache_prefix_refuted :
 Proof. exact relative_cache_prefix_refuted. Qed.
 
 Print Assumptions C08_name_perm.
-Print Assumptions C08_name_inj_partial.
 Print Assumptions C08_name_inj.
-Print Assumptions C08_name_tpl_confusable.
-Print Assumptions C08_name_inj_full_refuted.
+Print Assumptions C08_name_tpl_confusable_before_repair_refuted.
+Print Assumptions C08_name_inj_before_repair_refuted.
 Print Assumptions C08_fresh.
 Print Assumptions C08_fresh_exact.
 Print Assumptions C08_hashed_in_history.
